@@ -432,3 +432,89 @@ def target_generate_parameters():
 
 def targets():      # noqa: F811
     return _targets_before_generate_parameters() + [target_generate_parameters()]
+
+
+
+_WEIGHTS_REPRO = '''import numpy as np
+from pyimpspec.analysis.zhit.weights import _generate_weights, _initialize_window_functions
+_initialize_window_functions()
+log_f = np.log10(np.logspace(4, -1, 51))
+for center, width in ((1.53, 0.02), (0.25, 0.04), (2.0, 0.5), (1.5, 3.0)):
+    w = _generate_weights(log_f, "hann", center, width)      # must not raise, whatever the width
+    assert len(w) == len(log_f) and all(0.0 <= v <= 1.0 for v in w), (center, width, w)
+'''
+
+
+def target_generate_weights():
+    """zhit/weights._generate_weights(log_f, window, center, width): the abscissae handed to the interpolator of the window function
+    are the grid points inside [center - width/2, center + width/2] with BOTH end points added when they are not grid points -- for
+    every window, also one so narrow that no grid point falls inside it (then the two end points alone) -- so nothing is indexed
+    that may be empty and the interpolator always gets a strictly ascending sequence of at least two points that spans the window.
+    Real function on symbolic numbers (contracts/domain.Num): whether a grid point lies inside the window, and whether it coincides
+    with an end point, are questions answered both ways; grids of 0, 1 and 2 candidate points."""
+    from pyvc import overload as O
+    from . import dataflow as DF
+    from . import domain as D
+    WT = "analysis/zhit/weights"
+
+    def run(sess: Session):
+        paths = {"ok": 0, "raised": 0}
+        raised = []
+        for n_grid in (0, 1, 2):
+            box = {}
+
+            def once():
+                box.clear()
+                center, width = D.Num.var("center"), D.Num.var("width")
+                grid = [D.Num.var(f"grid{k}") for k in range(n_grid)]
+
+                class Akima:
+                    def __init__(self, x, y):
+                        box["x"] = list(x)
+                        box["M"] = y
+
+                    def __call__(self, lf):
+                        return 0.5
+                ns = {"Akima1DInterpolator": Akima, "_WINDOW_FUNCTIONS": {"hann": lambda M: ("window", M)}, "zeros": lambda shape, dtype=None: type("W", (list,), {"__lt__": lambda s_, o: s_, "__gt__": lambda s_, o: s_})(), "log": lambda g: g, "log10": lambda g: g,
+                      "logspace": lambda a, b, num=None: list(grid), "floor": lambda v: 0, "ceil": lambda v: 1, "int": int, "len": len, "enumerate": enumerate,
+                      "where": lambda c: (type("Ix", (list,), {"size": 0})(),), "float64": float, "ZHITError": type("ZHITError", (Exception,), {}), "sorted": sorted}
+                O.load(WT, ["_generate_weights"], ns)
+                log_f = type("A", (list,), {"shape": (0,)})()
+                try:
+                    ns["_generate_weights"](log_f, "hann", center, width)
+                    return None
+                except (IndexError, ValueError) as ex:
+                    return ex
+            for log, res, facts in DF.explore(once, max_paths=512):
+                lo, hi = z3.Real("center") - z3.Real("width") / 2, z3.Real("center") + z3.Real("width") / 2
+                hyps = list(facts) + [z3.Real("width") > 0] + [z3.Real(f"grid{k}") < z3.Real(f"grid{k + 1}") for k in range(n_grid - 1)]
+                solver = z3.Solver()
+                solver.add(*hyps)
+                if solver.check() != z3.sat:
+                    continue            # (answers that contradict each other, or a grid that is not ascending)
+                tag = f"[{n_grid} candidate grid points; " + ", ".join(f"{w.key}={v}" for w, v in log)[:150] + "]"
+                if res is not None:
+                    paths["raised"] += 1
+                    raised.append(f"{type(res).__name__}: {res} {tag}")
+                    continue
+                paths["ok"] += 1
+                xs = [v.e if isinstance(v, D.Num) else z3.RealVal(v) for v in box.get("x", [])]
+                sess.check("post", hyps, z3.BoolVal(len(xs) >= 2), 0, label=f"{tag}the interpolator gets at least two abscissae")
+                if len(xs) >= 2:
+                    sess.check("post", hyps, z3.And(xs[0] == lo, xs[-1] == hi), 0, label=f"{tag}the abscissae start at center - width/2 and end at center + width/2")
+                    sess.check("post", hyps, z3.And(*[xs[k] < xs[k + 1] for k in range(len(xs) - 1)]), 0, label=f"{tag}the abscissae are strictly ascending")
+                    sess.check("post", [], z3.BoolVal(box.get("M") == ("window", len(xs))), 0, label=f"{tag}one window value per abscissa")
+            ob = sess.check("exc-free", [], z3.BoolVal(not raised), 0, label=f"[{n_grid} candidate grid points]no IndexError / ValueError on any feasible path, for every window of positive width")
+            if raised:
+                ob.detail = "; ".join(raised[:3])
+                ob.replay = {"input": "a window narrower than the spacing of the grid", "repro": _WEIGHTS_REPRO}
+            del raised[:]
+        sess.check("cover", [], z3.BoolVal(paths["ok"] >= 6), 0, label=f"feasible paths: {paths['ok']}")
+    return (f"{WT}:_generate_weights", WT, "_generate_weights", run)
+
+
+_targets_before_weights = targets
+
+
+def targets():      # noqa: F811
+    return _targets_before_weights() + [target_generate_weights()]
